@@ -2,6 +2,6 @@
 # developer helper: tools/evalnew.sh <Cxx> <mN> [<check> ...]   evaluates /tmp/mutout/<Cxx>/<mN> (default check: <Cxx>)
 p=$1; m=$2; shift 2
 checks="${@:-$p}"
-d=/tmp/mutout/$p/$m
+d=${MUTOUT:-/tmp/mutout}/$p/$m
 [ -f $d/patch.diff ] || { echo "RESULT $p/$m missing patch"; exit 1; }
 /verif/tools/runmutant.sh $d/patch.diff $d/demo.py $checks 2>&1 | grep RESULT | sed "s|^RESULT|RESULT $p/$m|"
